@@ -392,6 +392,113 @@ func runC17(p *core.Prog, r *core.Report) {
 		r.Check(nLook >= 2 && nComplete == nLook && keyFields["ModuleName"] && keyFields["Module"], "C17.R3", "NewModuleGraph/edges-complete",
 			"every reference that resolves to a module — each map/store input and the block filter, a module's reference to itself included — becomes an edge of the graph tested for cycles (the layering loop waits on exactly these references)",
 			fmt.Sprintf("%d module-name lookups, %d add an edge whenever the name is found; keys cover inputs=%v blockFilter=%v", nLook, nComplete, keyFields["ModuleName"], keyFields["Module"]), p.Pos(ng.Pos()))
+		// ... and every reference resolves: validation accepts a module only if each map/store input and the block filter
+		// (when present, whatever its name — the empty name included) names an existing module; a reference the graph has
+		// no vertex for is never placed, so the layering loop would wait for it for ever
+		for _, w := range []struct {
+			fn      string
+			keyName []string
+			min     int
+		}{{"checkValidInputs", []string{"ModuleName"}, 2}, {"checkValidBlockFilter", []string{"Module"}, 1}} {
+			fn := p.Func(pkgMani, w.fn)
+			r.Touch(core.FuncName(fn))
+			var foundEdges, absentEdges []core.Edge
+			nLk := 0
+			core.Instrs(fn, func(in ssa.Instruction) {
+				lk, ok := in.(*ssa.Lookup)
+				if !ok || !lk.CommaOk {
+					return
+				}
+				src := core.Trace(lk.Index, 1)
+				match := false
+				for _, k := range w.keyName {
+					if hasFieldNamed(src, k) {
+						match = true
+					}
+				}
+				if !match {
+					return
+				}
+				nLk++
+				for _, ref := range *lk.Referrers() {
+					ex, ok := ref.(*ssa.Extract)
+					if !ok || ex.Index != 1 {
+						continue
+					}
+					for _, rr := range *ex.Referrers() {
+						var ifi *ssa.If
+						neg := false
+						switch y := rr.(type) {
+						case *ssa.If:
+							ifi = y
+						case *ssa.UnOp:
+							neg = true
+							for _, r3 := range *y.Referrers() {
+								if z, ok := r3.(*ssa.If); ok {
+									ifi = z
+								}
+							}
+						}
+						if ifi == nil {
+							continue
+						}
+						fi := 0
+						if neg {
+							fi = 1
+						}
+						foundEdges = append(foundEdges, core.Edge{From: ifi.Block(), Idx: fi})
+						absentEdges = append(absentEdges, core.Edge{From: ifi.Block(), Idx: 1 - fi})
+					}
+				}
+			})
+			// on the not-found edge the function returns an error
+			okErr := nLk >= w.min
+			for _, e := range absentEdges {
+				q := core.PathQuery{Fn: fn}
+				if _, reach := q.CanReach(e.From.Succs[e.Idx].Instrs[0], func(x ssa.Instruction) bool {
+					rt, ok := x.(*ssa.Return)
+					return ok && core.ReturnsNilError(rt)
+				}); reach {
+					okErr = false
+				}
+			}
+			// and, for the block filter, success without a lookup is only possible when there is no filter at all
+			okOnly := true
+			if w.fn == "checkValidBlockFilter" {
+				var nilEdges []core.Edge
+				core.Instrs(fn, func(in ssa.Instruction) {
+					ifi, ok := in.(*ssa.If)
+					if !ok {
+						return
+					}
+					c, neg := core.StripNot(ifi.Cond)
+					bo, ok := c.(*ssa.BinOp)
+					if !ok || (bo.Op != token.EQL && bo.Op != token.NEQ) {
+						return
+					}
+					k, isK := bo.Y.(*ssa.Const)
+					if !isK || !k.IsNil() {
+						return
+					}
+					if !(hasFieldNamed(core.Trace(bo.X, 1), "BlockFilter") || core.Trace(bo.X, 1).HasCallNamed("GetBlockFilter")) {
+						return
+					}
+					idx := 0
+					if (bo.Op == token.NEQ) != neg {
+						idx = 1
+					}
+					nilEdges = append(nilEdges, core.Edge{From: ifi.Block(), Idx: idx})
+				})
+				cut := append(append([]core.Edge{}, nilEdges...), foundEdges...)
+				q := core.PathQuery{Fn: fn, CutEdge: func(e core.Edge) bool { return containsEdge(cut, e) }}
+				_, reach := q.CanReach(nil, func(x ssa.Instruction) bool {
+					rt, ok := x.(*ssa.Return)
+					return ok && core.ReturnsNilError(rt)
+				})
+				okOnly = len(nilEdges) > 0 && !reach
+			}
+			r.Check(okErr && okOnly, "C17.R3", "precondition/P-refs-resolve/"+w.fn, "validation accepts a module only if every module it refers to exists: a name that is not found is an error, and a block filter is accepted without a lookup only when it is absent", fmt.Sprintf("%d lookups; not-found always an error: %v; no other way to succeed: %v", nLk, okErr, okOnly), p.Pos(fn.Pos()))
+		}
 		cgf := p.Func(pkgExec, "Graph.computeGraph")
 		ngCalls := core.FindInstrs(cgf, core.IsCallTo(p.FuncObj(pkgMani, "NewModuleGraph")))
 		okOrder := len(ngCalls) == 1
@@ -441,7 +548,7 @@ func runC17(p *core.Prog, r *core.Report) {
 	})
 	r.MinInstances("C17.R1", 6)
 	r.MinInstances("C17.R2", 5)
-	r.MinInstances("C17.R3", 7)
+	r.MinInstances("C17.R3", 9)
 }
 
 func uniq(xs []string) []string {
